@@ -11,6 +11,7 @@ import (
 	"os"
 	"path/filepath"
 	"runtime/debug"
+	"runtime/pprof"
 	"sort"
 	"strconv"
 	"strings"
@@ -39,7 +40,14 @@ func main() {
 	mutant := flag.String("mutant", "", "internal: analyse the tree with this mutant applied (overlay) and print fired obligations")
 	list := flag.Bool("list", false, "list obligations")
 	noControls := flag.Bool("no-controls", false, "skip positive controls")
+	cpuprof := flag.String("cpuprofile", "", "write a CPU profile")
 	flag.Parse()
+	debug.SetGCPercent(800)
+	if *cpuprof != "" {
+		f, _ := os.Create(*cpuprof)
+		_ = pprof.StartCPUProfile(f)
+		defer pprof.StopCPUProfile()
+	}
 
 	if *verif == "" {
 		exe, _ := os.Executable()
@@ -73,6 +81,9 @@ func main() {
 		if e > exit {
 			exit = e
 		}
+	}
+	if *cpuprof != "" {
+		pprof.StopCPUProfile()
 	}
 	os.Exit(exit)
 }
